@@ -23,6 +23,18 @@ func main() {
 		os.Exit(cmdCheck(os.Args[2:]))
 	case "dump":
 		cmdDump(os.Args[2:])
+	case "tables":
+		e, err := LoadEngine("/repo")
+		if err != nil {
+			fmt.Println(err)
+			os.Exit(3)
+		}
+		for n, ti := range e.tables {
+			fmt.Printf("%s open=%v frozen=%v rows=%d\n", n, ti.Open, ti.Frozen, len(ti.Rows))
+			for _, r := range ti.Rows {
+				fmt.Printf("   %-55s %s (fn=%v closure=%v)\n", r.Key, r.Desc, r.Fn != nil, r.Closure)
+			}
+		}
 	default:
 		fmt.Println("unknown command")
 		os.Exit(2)
